@@ -15,7 +15,10 @@ CLASSES = [("MinFlowDecomp", {}), ("kFlowDecomp", {"k": 3}), ("kMinPathError", {
            ("kPathCover", {"k": 3}), ("MinPathCover", {}), ("MinFlowDecompCycles", {}), ("kFlowDecompCycles", {"k": 3}),
            ("kMinPathErrorCycles", {"k": 3}), ("kLeastAbsErrorsCycles", {"k": 3}), ("kPathCoverCycles", {"k": 3}),
            ("MinPathCoverCycles", {}), ("kFlowDecomp", {"k": 3, "solution_weights_superset": [1, 2, 3, 4]}),
-           ("kLeastAbsErrors", {"k": 2, "solution_weights_superset": [1, 2, 3]})]
+           ("kLeastAbsErrors", {"k": 2, "solution_weights_superset": [1, 2, 3]}),
+           # node-weighted use of the same caller-owned graphs, with a length attribute that some edges lack
+           ("kFlowDecomp", {"k": 3, "flow_attr_origin": "node", "length_attr": "length"}),
+           ("kMinPathError", {"k": 3, "flow_attr_origin": "node", "length_attr": "length"})]
 COVER = {"kPathCover", "MinPathCover", "kPathCoverCycles", "MinPathCoverCycles"}
 
 
@@ -28,6 +31,13 @@ def make_pool():
     g2 = nx.DiGraph()
     for u, v, f in [("a", "b", 5), ("b", "c", 2), ("b", "d", 3), ("c", "d", 2), ("d", "e", 5)]:
         g2.add_edge(u, v, flow=f)
+    # node weights (through-flow) and a length on some elements only, for the node-weighted class variants
+    for g in (g1, g2):
+        for v in g.nodes():
+            g.nodes[v]["flow"] = max(sum(d["flow"] for _, _, d in g.in_edges(v, data=True)),
+                                     sum(d["flow"] for _, _, d in g.out_edges(v, data=True)))
+        g.nodes["b"]["length"] = 2
+        g["a"]["b"]["length"] = 1
     g3 = g1.copy()
     g3["b"]["d"]["flow"] = -1            # invalid unless that edge is ignored / has error scale 0
     return {"g1": g1, "g2": g2, "g3": g3, "e1": {("b", "d"): 0}, "o1": {}, "o2": {"optimize_with_safe_paths": False, "optimize_with_safe_zero_edges": False},
@@ -61,9 +71,9 @@ def build(fp, cls_idx, pool, g, o, s, c, i, e="omit"):
         kw["solver_options"] = pool[s]
     if c != "omit":
         kw["subset_constraints" if cyc else "subpath_constraints"] = pool[c]
-    if i != "omit":
+    if i != "omit" and kw.get("flow_attr_origin") != "node":      # (the pooled ignore list names edges)
         kw["elements_to_ignore"] = pool[i]
-    if e != "omit" and (name.startswith("kLeastAbs") or name.startswith("kMinPathError")):
+    if e != "omit" and (name.startswith("kLeastAbs") or name.startswith("kMinPathError")) and kw.get("flow_attr_origin") != "node":
         kw["error_scaling"] = pool[e]
     import inspect
     if "trusted_edges_for_safety" in inspect.signature(getattr(fp, name).__init__).parameters:
